@@ -281,7 +281,22 @@ impl GraphEngine {
     /// Returns an error if analysis fails.
     pub fn is_biconnected(&self, config: &BiconnectedConfig) -> Result<bool> {
         let result = self.biconnected_components(config)?;
-        Ok(result.is_biconnected())
+        if !result.is_biconnected() {
+            return Ok(false);
+        }
+        // The components are edge sets, so nodes without a (matching) edge never show up in them:
+        // a graph with two or more nodes is only biconnected if its single component touches every node.
+        let nodes = self.get_all_node_ids()?;
+        if nodes.len() <= 1 {
+            return Ok(true);
+        }
+        let covered: HashSet<u64> = result
+            .components
+            .iter()
+            .flatten()
+            .flat_map(|&(a, b)| [a, b])
+            .collect();
+        Ok(covered.len() == nodes.len())
     }
 }
 
